@@ -253,6 +253,44 @@ def swap_ast(node, r):
     return node
 
 
+def props2_parse(p):
+    try:
+        return parse_escaped(p)
+    except Exception:
+        return None
+
+
+def parse_escaped(p):
+    """like parse_full but with backslash-escaped literal metacharacters"""
+    out, i = [], 0
+    # translate escaped literals to private-use placeholders, parse, and map back
+    table = {}
+    q = ""
+    while i < len(p):
+        if p[i] == "\\" and i + 1 < len(p) and not p[i + 1].isdigit():
+            ph = chr(0xF000 + len(table))
+            table[ph] = p[i + 1]
+            q += ph
+            i += 2
+        else:
+            q += p[i]
+            i += 1
+    ast = parse_full(q)
+
+    def back(n):
+        t = n[0]
+        if t == "lit":
+            return ("lit", table.get(n[1], n[1]))
+        if t == "grp":
+            return ("grp", n[1], back(n[2]), n[3])
+        if t in ("alt", "seq"):
+            return (t, [back(b) for b in n[1]])
+        if t == "rep":
+            return ("rep", back(n[1])) + n[2:]
+        return n
+    return back(ast)
+
+
 def c11_streams(ctx):
     r = ctx.rnd
     gs = []
@@ -271,6 +309,21 @@ def c11_streams(ctx):
             # category escapes are case-sensitive by design (\\p{Lu} ...): no input swapping for those patterns
             cse = bool(re.search(r"[pP]\{L[ult]?\}", p))
             gs.append(Group(cs, {"features": fe, "input": s, "ast": ast, "s2": s2, "p2": p2, "case_sensitive_escape": cse}))
+    # a literal prefix that starts with a case-less character and continues with letters (the prefix scan)
+    for _ in range(ctx.scale(300, 3000)):
+        alpha = r.choice(CASE_ALPHABETS[:5])
+        w = r.choice("1 -(") + "".join(r.choice(alpha) for _ in range(r.randint(1, 3)))
+        tail = r.choice(["", "+", "x", "(?:y|z)", "$"])
+        lit = "".join("\\" + c if c in "()-" else c for c in w)
+        p = lit + tail
+        ast = props2_parse(p)
+        if ast is None:
+            continue
+        w2 = "".join(swapc(c) for c in w)
+        for s in [r.choice(["", "z"]) + w2 + r.choice(["", "x", w2]), w + w2]:
+            s2 = "".join(swapc(c) if r.random() < 0.6 else c for c in s)
+            cs = [Case(p, "i", "analyze", s), Case(p, "i", "analyze", s2), Case(p, "i", "analyze", s), Case(p, "", "is_match", s), Case(p, "i", "is_match", s)]
+            gs.append(Group(cs, {"features": set(), "input": s, "ast": ast, "s2": s2, "p2": p, "case_sensitive_escape": False}))
     # without i a literal matches only the identical characters
     for alpha in CASE_ALPHABETS[:5]:
         for _ in range(ctx.scale(30, 300)):
